@@ -3,7 +3,7 @@ SPEC = {
     "module": "C18.Property",
     "targets": ["C18/Property.vo"],
     "theorems": ["C18_delta_stream_exact", "C18_snapshot_stream_exact", "C18_delta_threshold_independent",
-                 "C18_snapshot_threshold_independent", "C18_chunks_independent", "C18_chunks_long", "C18_nonvacuous"],
+                 "C18_snapshot_threshold_independent", "C18_chunks_independent", "C18_chunks_long", "C18_model_satisfies_spec", "C18_nonvacuous"],
     "streams": [{
         "name": "streams", "bin": "c18", "check_module": "C18.Spec",
         "why": {"2": "the concatenated chunks of a /json-delta response do not lex to the tokens of the JSON document listing "
